@@ -506,3 +506,29 @@ func Mutate(r *core.Rng, f *Format, in []byte) []byte {
 func RandomBytes(r *core.Rng, f *Format, n int) []byte {
 	return r.Bytes(n, f.Special+f.Special+f.Special+"Aa0 1\t\x00\xff\xef\xbb\xbf")
 }
+
+// Boundary64K is a small well-formed document (one or two records) whose main line
+// is within 3 bytes of 64 KiB: the size of bufio.Scanner's default token limit and of
+// many hand-rolled read-ahead windows. Cheap enough for the quick tier.
+func Boundary64K(r *core.Rng, f *Format) Doc {
+	l := 65536 + r.Range(-3, 3)
+	var d Doc
+	switch f.Name {
+	case "fasta":
+		d.Lines = [][]byte{[]byte(">a"), r.Bytes(l, seqAlpha), []byte(">b"), []byte("ACGT")}
+	case "fastq":
+		d.Lines = [][]byte{[]byte("@a"), r.Bytes(l, dnaAlpha), []byte("+"), r.Bytes(l, qualAlpha), []byte("@b"), []byte("AC"), []byte("+"), []byte("II")}
+	case "sam", "samh":
+		fields := []string{"q", "0", "chr1", "1", "0", "*", "=", "0", "0", "", ""}
+		need := l - len(strings.Join(fields, "\t"))
+		seq := string(r.Bytes(need/2, dnaAlpha))
+		fields[9], fields[10], fields[0] = seq, seq, "q"+strings.Repeat("q", need-2*(need/2))
+		d.Lines = [][]byte{[]byte("@HD\tVN:1.6"), []byte(strings.Join(fields, "\t")), []byte("r\t0\tchr1\t1\t0\t*\t=\t0\t0\tAC\tII")}
+	case "bed":
+		d.Lines = [][]byte{[]byte("chr1\t1\t2\t" + string(r.Bytes(l-9, wordAlpha))), []byte("chr2\t3\t4\tx")}
+	default: // newick
+		d.Lines = [][]byte{[]byte("('" + string(r.Bytes(l-6, "ab _")) + "',b);"), []byte("(c,d);")}
+	}
+	d.FinalTerm = r.Chance(0.7)
+	return d
+}
